@@ -441,6 +441,13 @@ impl Prop for C38 {
     }
     fn run_shard(&self, cfg: &ShardCfg) -> ShardResult {
         let mut d = Driver::new(cfg, "C38");
+        // development aid for sensitivity trials (never set by the registered commands): run one stream only
+        let only = std::env::var("VERIF_C38_ONLY").unwrap_or_default();
+        if only == "effects" {
+            let n3 = cfg.share(cfg.tier.pick(4_000, 200_000));
+            d.run("effects", 2, n3, 200, prog_strategy(), &mk_env, &check_effects);
+            return d.finish();
+        }
         let n1 = cfg.share(cfg.tier.pick(1_500, 75_000));
         d.run("tabling", 0, n1, 40, tcase_strategy(), &mk_env, &check_tabling);
         let n2 = cfg.share(cfg.tier.pick(64, 3_200));
